@@ -42,6 +42,7 @@ const char *vf_violation_text (void);
 void vf_api_enter (void);          /* interpreter: about to call into nsync */
 void vf_api_leave (void);          /* interpreter: call returned (stack records of this fiber die) */
 void vf_sched_note (void);
+int vf_my_waiter_unlinked_by_waker (void);
 long vf_steps (void);
 const int *vf_schedule (int *len); /* recorded schedule of this execution */
 
